@@ -438,8 +438,12 @@ pub fn emit_case(rng: &mut Rng, bytes0: &[u8], out: &mut Vec<String>, native_fri
     }
     // shifts: the interesting counts are around the masking boundaries (0, 1, width-1, width, width+1, 31/32/33, 63/64/65,
     // and the same plus multiples of 32/64 up to 255), which a random byte hits once in a while at best
-    if matches!(ins.mnemonic(), Mnemonic::Shl | Mnemonic::Shr | Mnemonic::Sar | Mnemonic::Rol | Mnemonic::Ror) && rng.chance(2, 3) {
-        let base = *rng.pick(&[0u64, 1, 2, 7, 8, 9, 15, 16, 17, 31, 32, 33, 63, 64, 65]);
+    if matches!(ins.mnemonic(), Mnemonic::Shl | Mnemonic::Shr | Mnemonic::Sar | Mnemonic::Rol | Mnemonic::Ror)
+        && (rng.chance(2, 3) || (place == Place::Ro && ins.op0_kind() == OpKind::Memory))
+    {
+        // (a shift that changes nothing — masked count 0 — into memory that may not be written is still a store)
+        let quiet_shift = place == Place::Ro && ins.op0_kind() == OpKind::Memory && rng.chance(1, 2);
+        let base = if quiet_shift { 0 } else { *rng.pick(&[0u64, 1, 2, 7, 8, 9, 15, 16, 17, 31, 32, 33, 63, 64, 65]) };
         let count = (base + *rng.pick(&[0u64, 0, 0, 32, 64, 96, 128, 192, 224])) & 0xff;
         if ins.op_count() == 2 && ins.op1_kind() == OpKind::Register && ins.op1_register() == Register::CL {
             regs[1] = (regs[1] & !0xff) | count;
@@ -474,7 +478,7 @@ pub fn emit_case(rng: &mut Rng, bytes0: &[u8], out: &mut Vec<String>, native_fri
             .any(|r| (r.is_gpr64() || r.is_gpr32()) && (r.number() == 0 || r.number() == 2));
         let tied = matches!(parent_shift, Some((0, _)) | Some((2, _))) || addr_uses_ad;
         if !tied && (8..=64).contains(&w) {
-            let d: u64 = match rng.below(7) {
+            let d: u64 = match if ins.mnemonic() == Mnemonic::Idiv && rng.chance(1, 4) { 1 } else { rng.below(7) } {
                 0 => 1,
                 1 => mask,
                 2 => 1u64 << (w - 1),
@@ -525,7 +529,10 @@ pub fn emit_case(rng: &mut Rng, bytes0: &[u8], out: &mut Vec<String>, native_fri
                 let un = n as u128;
                 // the extremes of the dividend itself (most negative / most positive double-width value and their neighbours):
                 // with a divisor of -1 or 1 the quotient is off the scale by a whole word, not by one
-                match rng.below(8) {
+                // (a divisor of -1 or 1 makes the first of them four times as likely: that pair is the one case where the quotient
+                // itself is not representable in the double width)
+                let unit = d == mask || d == 1;
+                match rng.below(if unit { 5 } else { 8 }) {
                     0 => (1u64 << (w - 1), 0),
                     1 => (1u64 << (w - 1), 1),
                     2 => ((1u64 << (w - 1)) - 1, mask),
